@@ -1,6 +1,7 @@
 """C13: executes the cases enumerated by spec/MCToml.tla: writes the TOML text, calls
 Kind.from_file and the constructor with the same values, and reports outcomes and canonical
 digests of the two components (payload, params()/limits() rows, solved probe)."""
+from decwire import excname
 import copy
 import os
 import tempfile
@@ -79,11 +80,11 @@ def probe(comp, kind):
                     s.add_comp(comp._params["name"], comp=C.ILoad("l", ii=0.1))
             rows = digest([df_rows(s.params(limits=True)), df_rows(s.limits())])
         except Exception as e:
-            return "exc:" + type(e).__name__, "exc:" + type(e).__name__
+            return "exc:" + excname(e), "exc:" + excname(e)
         try:
             t = digest(table_wire(s.solve()))
         except Exception as e:
-            t = "exc:" + type(e).__name__
+            t = "exc:" + excname(e)
     return rows, t
 
 
@@ -146,18 +147,18 @@ def run_case(st, cid, rng, tmpdir):
         try:
             a = cls.from_file("X", fname=path)
         except Exception as e:
-            case["ff"] = type(e).__name__
+            case["ff"] = excname(e)
         try:      # loading the same file again gives the same component
             a2 = cls.from_file("X", fname=path)
         except Exception as e:
-            case["ff2"] = type(e).__name__
+            case["ff2"] = excname(e)
         try:
             kw = copy.deepcopy(P)
             if L is not None:
                 kw["limits"] = dict(L)
             b = cls("X", **kw)
         except Exception as e:
-            case["ct"] = type(e).__name__
+            case["ct"] = excname(e)
     if a is not None:
         case["da"] = digest(comp_pay(a))
         case["ra"], case["pa"] = probe(a, kind)
